@@ -67,6 +67,7 @@ GATES = {
     "leaf-versions": ["leafversion:c0", "leafversion:other"],
     "memo": ["memo:populated-checked"],
     "no-tree": ["tweak:empty-merkle-root"],
+    "recreated-leaf-queries": ["control-block:asked-with-recreated-equal-leaf", "control-block:asked-with-recreated-equal-leaf:single-leaf-tree"],
     "repository-tests-under-contracts": {"quick": [], "thorough": ["repotests:run"]},
 }
 
@@ -825,6 +826,12 @@ def one_tree(ctx, rng, shape, serial, tier):
     # every leaf: control block builds, serialises, parses back, reproduces key and parity
     blocks = []
     for li, lf in enumerate(libleaves):
+        # the spender re-creates the leaf of its script (an EQUAL but distinct object) and asks the tree for the
+        # control block - also when the tree is that single leaf: decided by the control_block contract
+        from buidl.taproot import TapLeaf as _TL
+
+        outcome(lib.control_block, internal, _TL(lf.tap_script, lf.tapleaf_version))
+        ctx.count("control-block:asked-with-recreated-equal-leaf" + (":single-leaf-tree" if len(libleaves) == 1 else ""))
         co = outcome(lib.control_block, internal, lf)
         if co[0] != "ok" or co[1] is None:
             continue
